@@ -131,3 +131,94 @@ func VerifC27RelayNumber() {
 	verif_assert("replayed-or-older-relay-number-rejected", (err2 == nil) == (next > req))
 	verif_reach("accepted")
 }
+
+// ---- other goroutines as interference at synchronisation points (symbolic run only) ----
+// verifC27Interfere runs before every atomic operation / lock acquisition of the executed thread.  Other relays of
+// the same project may have been accepted or rolled back meanwhile: the used-CU counter moves to any value that
+// respects the limit (every other thread checks it too), and the ghost sum of all session CU sums moves with it.
+
+var (
+	verifC27Epoch  *ProviderSessionsEpochData
+	verifC27Limit  uint64
+	verifC27Ghost  uint64 // sum of the CU sums of all sessions of the project (ghost)
+	verifC27Budget int
+)
+
+func verifC27Interfere() {
+	if verifC27Epoch == nil || verifC27Budget == 0 {
+		return
+	}
+	if !verif_nondet_bool("otherThreads.actNow") {
+		return
+	}
+	verifC27Budget--
+	nv := verif_nondet_u64("otherThreads.usedCuAfter")
+	verif_assume(nv <= verifC27Limit)
+	verifC27Ghost = verifC27Ghost - verifC27Epoch.UsedComputeUnits + nv
+	verifC27Epoch.UsedComputeUnits = nv
+}
+
+// VerifC27ConcurrentPrepare: a relay is accepted on one session while other sessions of the same project add and
+// roll back CU at every synchronisation point (up to `interferences` times).  At the moment the relay's CU is
+// accepted the project's used CU is within max CU x (virtual epoch + 1), and the counter still equals the sum of
+// the session CU sums.
+func VerifC27ConcurrentPrepare() {
+	max := verif_nondet_u64("epoch.MaxComputeUnits")
+	used := verif_nondet_u64("epoch.UsedComputeUnits")
+	ve := verif_nondet_u64("virtualEpoch")
+	cuSum := verif_nondet_u64("session.CuSum")
+	cu := verif_nondet_u64("relay.cu")
+	verif_assume(max < 1<<48 && ve < 1<<10 && cu < 1<<32)
+	limit := max * (ve + 1)
+	verif_assume(used <= limit && cuSum <= used)
+	epochData := &ProviderSessionsEpochData{MaxComputeUnits: max, UsedComputeUnits: used}
+	parent := NewProviderSessionsWithConsumer("project", epochData, 1)
+	sps := &SingleProviderSession{userSessionsParent: parent, CuSum: cuSum, SessionID: 1, PairingEpoch: 10}
+	parent.Sessions[1] = sps
+	sps.lock.Lock()
+	verifC27Epoch, verifC27Limit, verifC27Ghost, verifC27Budget = epochData, limit, used, verif_param("interferences", 2)
+
+	err := sps.PrepareSessionForUsage(context.Background(), cu, cuSum+cu, 0, ve)
+
+	verifC27Budget = 0 // observe the state right after the call
+	if err != nil {
+		verif_assert("rejected-relay-leaves-session-cu", sps.CuSum == cuSum && sps.LatestRelayCu == 0)
+		verif_assert("rejected-relay-adds-nothing", epochData.UsedComputeUnits == verifC27Ghost)
+		verif_reach("rejected")
+		return
+	}
+	verif_assert("accepted-cu-within-limit-whatever-the-other-sessions-did", epochData.UsedComputeUnits <= limit)
+	verif_assert("used-cu-is-sum-of-session-cu-sums", epochData.UsedComputeUnits == verifC27Ghost+cu && sps.CuSum == cuSum+cu)
+	verif_reach("accepted")
+}
+
+// VerifC27ConcurrentUpdateCU: the reward server raises a session's CU sum (UpdateSessionCU) while relays on other
+// sessions of the same project are accepted and rolled back at every synchronisation point.  Afterwards the
+// project's used CU still equals the sum of its sessions' CU sums.
+func VerifC27ConcurrentUpdateCU() {
+	used := verif_nondet_u64("epoch.UsedComputeUnits")
+	cuSum := verif_nondet_u64("session.CuSum")
+	newCU := verif_nondet_u64("rewardServer.newCU")
+	verif_assume(used < 1<<48 && cuSum <= used && newCU < 1<<48)
+	psm := NewProviderSessionManager(&RPCProviderEndpoint{}, 5)
+	parent, err := psm.registerNewConsumer("consumer", "project", 10, 1<<50, 1)
+	verif_assert("registered", err == nil)
+	parent.epochData.UsedComputeUnits = used
+	sps := &SingleProviderSession{userSessionsParent: parent, CuSum: cuSum, SessionID: 1, PairingEpoch: 10}
+	parent.Sessions[1] = sps
+	verifC27Epoch, verifC27Limit, verifC27Ghost, verifC27Budget = parent.epochData, 1<<49, used, verif_param("interferences", 1)
+
+	uerr := psm.UpdateSessionCU("consumer", 10, 1, newCU)
+
+	verifC27Budget = 0
+	verif_assert("update-succeeds", uerr == nil)
+	want := verifC27Ghost
+	if newCU > cuSum {
+		want += newCU - cuSum
+		verif_assert("session-cu-raised", sps.CuSum == newCU)
+	} else {
+		verif_assert("lower-cu-ignored", sps.CuSum == cuSum)
+	}
+	verif_assert("used-cu-is-sum-of-session-cu-sums-after-reward-server-update", parent.epochData.UsedComputeUnits == want)
+	verif_reach("end")
+}
